@@ -203,8 +203,42 @@ class CombineScatter(FragmentTask):
             ctx.oblige(f"post.box-{box}-gets-the-offset-written-for-it", to_z3(mo.elem((box,))) == want, "P")
 
 
+class FieldIndices(FragmentTask):
+    """combine(), the statements turning the selected names into component indices: vidxs1[t] is the component of vars1[t] in
+    the first plotfile and vidxs2[t] that of vars2[t] in the second, in the order of the name lists - the order the output
+    Header names the fields in (cbvars = vars1 + vars2) and the workers write the components in."""
+    prop = "C06"
+    reach = "S"
+    qual = CB + "combine"
+    first = staticmethod(FragmentTask.assigns("vidxs1"))
+    last = staticmethod(FragmentTask.assigns("vidxs2"))
+    unordered = True
+
+    def __init__(self, v1, v2):
+        self.v1, self.v2 = list(v1), list(v2)
+        self.name = f"combine.field-indices[{','.join(v1)}|{','.join(v2)}]"
+
+    def setup(self, ex):
+        f1 = {"alpha": 0, "beta": 1, "gamma": 2}
+        f2 = {"sigma": 0, "tau": 1}
+        p1 = Record("amr_kitchen.plotfile_cooker.PlotfileCooker", fields=dict(f1))
+        p2 = Record("amr_kitchen.plotfile_cooker.PlotfileCooker", fields=dict(f2))
+        return {"frame": {"pck1": p1, "pck2": p2, "vars1": list(self.v1), "vars2": list(self.v2)}, "f1": f1, "f2": f2}
+
+    def post(self, ex, inp, out):
+        ctx = ex.ctx
+        ctx.oblige("raises-nothing", out.kind == "ret", "P", note=str(out.exc) if out.kind != "ret" else "")
+        if out.kind != "ret":
+            return
+        g1, g2 = out.value.get("vidxs1"), out.value.get("vidxs2")
+        e1, e2 = [inp["f1"][v] for v in self.v1], [inp["f2"][v] for v in self.v2]
+        ctx.oblige("post.first-indices-follow-the-requested-names", list(g1) == e1 if isinstance(g1, (list, tuple)) else False, "P", note=f"{g1} vs {e1}")
+        ctx.oblige("post.second-indices-follow-the-requested-names", list(g2) == e2 if isinstance(g2, (list, tuple)) else False, "P", note=f"{g2} vs {e2}")
+
+
 def parent_tasks(tier):
-    return [ModeDecision(True), ModeDecision(False), OffsetMap(), MatchedOffsets(), BinfileOutput(), CombineScatter()]
+    return [ModeDecision(True), ModeDecision(False), OffsetMap(), MatchedOffsets(), BinfileOutput(), CombineScatter(),
+            FieldIndices(["gamma", "alpha"], ["tau"]), FieldIndices(["beta"], ["tau", "sigma"]), FieldIndices(["alpha", "beta", "gamma"], ["sigma", "tau"])]
 
 
 def parent_canaries():
@@ -217,7 +251,10 @@ def parent_canaries():
             ("matched offsets: second plotfile's offsets taken in file order of the second plotfile",
              [(g, "            offsets_bf2 = np.array(other.cells[lv]['offsets'])[box_indices]\n            # Path to the combined binary files (for Windows)\n            bfile_r1 = os.path.join(os.getcwd(), bf1)\n            bfile_r2 = [",
                "            offsets_bf2 = np.array(other.cells[lv]['offsets'])[box_indices[::-1]]\n            # Path to the combined binary files (for Windows)\n            bfile_r1 = os.path.join(os.getcwd(), bf1)\n            bfile_r2 = [")],
-             ["by_matched_offsets_output"])]
+             ["by_matched_offsets_output"]),
+            ("combine: component indices in plotfile order instead of the requested order",
+             [(f, "    vidxs1 = [pck1.fields[v] for v in vars1]", "    vidxs1 = [idx for fld, idx in pck1.fields.items() if fld in vars1]")],
+             ["combine.field-indices[gamma,alpha|tau]"])]
 
 
 def tasks(tier):
